@@ -74,7 +74,7 @@ def run(ck, fb):
     r07g(ck, fb)
     r07j(ck, fb)
     r07k(ck, fb)
-    ck.borrow('rules.c09', {'R09c': 'R07i'}, 'the replicated publish is a no-op only when the node already holds that content as APPLIED content: a follower that holds it as temporary value must record it like the leader does')
+    ck.borrow('rules.c09', {'R09c': 'R07i', 'R09p': 'R07l'}, 'the replicated publish is a no-op only when the node already holds that content as APPLIED content: a follower that holds it as temporary value must record it like the leader does')
     ck.borrow('rules.c01', {'R01n': 'R07h'}, 'the start-up replay path must decide a request as the live apply path did: an index that only load_completed builds is empty during the replay')
 
 
